@@ -57,7 +57,8 @@ const (
 	FeatRaceWs         = 1024 // C20: the websocket workloads of C12 / C13 under the race detector
 	FeatTransportStall = 2048 // C06 / C12 pair engines: the sending direction of one endpoint stalls for a while
 	FeatTimerTies      = 4096 // C14: re-arm / stop placed exactly at the expiry instant of the running timer
-	FeatAll            = 8191
+	FeatMdnsRequests   = 8192 // C17: the hub asks for the known entries (RequestMdnsEntries) while resolver events come in
+	FeatAll            = 16383
 )
 
 // SetFeatForRig forces the dual-stack options of the next hub rig (workloads
